@@ -19,13 +19,9 @@ func (d *DotGit) setRef(fileName, content string, old *plumbing.Reference) (err 
 }
 
 func (d *DotGit) setRefRwfs(fileName, content string, old *plumbing.Reference) (err error) {
-	// If we are not checking an old ref, just truncate the file.
-	mode := os.O_RDWR | os.O_CREATE
-	if old == nil {
-		mode |= os.O_TRUNC
-	}
-
-	f, err := d.fs.OpenFile(fileName, mode, 0o666)
+	// The file is never truncated on open: that would empty it outside the
+	// lock, under a concurrent writer's critical section.
+	f, err := d.fs.OpenFile(fileName, os.O_RDWR|os.O_CREATE, 0o666)
 	if err != nil {
 		return err
 	}
@@ -43,8 +39,12 @@ func (d *DotGit) setRefRwfs(fileName, content string, old *plumbing.Reference) (
 		}
 	}
 
-	// this is a no-op to call even when old is nil.
-	err = d.checkReferenceAndTruncate(f, old)
+	if old == nil {
+		// If we are not checking an old ref, just truncate the file.
+		err = f.Truncate(0)
+	} else {
+		err = d.checkReferenceAndTruncate(f, old)
+	}
 	if err != nil {
 		return err
 	}
